@@ -71,7 +71,7 @@ func TestC05_SingleByteScalars(t *testing.T) {
 }
 
 func zeroWindowScalar(t *rapid.T) (*big.Int, string) {
-	kind := rapid.SampledFrom([]string{"general", "zero-nibbles", "zero-bytes", "zero-run", "single-nibble", "all-f-but-one"}).Draw(t, "skind")
+	kind := gen.Sampled([]string{"general", "zero-nibbles", "zero-bytes", "zero-run", "single-nibble", "all-f-but-one"}).Draw(t, "skind")
 	b := ref.B32(gen.Int256(t, ref.N, "s"))
 	switch kind {
 	case "zero-nibbles":
@@ -115,7 +115,7 @@ func zeroWindowScalar(t *rapid.T) (*big.Int, string) {
 
 func propBaseMult(t *rapid.T) {
 	s, kind := zeroWindowScalar(t)
-	entry := rapid.SampledFrom(baseEntries).Draw(t, "entry")
+	entry := gen.Sampled(baseEntries).Draw(t, "entry")
 	zeroNibbles := 0
 	for _, by := range ref.B32(s) {
 		if by>>4 == 0 {
@@ -157,6 +157,16 @@ func propBaseMult(t *rapid.T) {
 		if !bytes.Equal(k.PublicKey().Bytes(), want.Uncompressed()) {
 			t.Fatalf("public key of d=%x is %x, want %v", s, k.PublicKey().Bytes(), want)
 		}
+		// the caller goes on using its scalar: the key must keep mapping d to d*G
+		keep := secp256k1.NewScalarFrom(ls)
+		ls.Add(ls, ls)
+		if !bytes.Equal(k.Bytes(), ref.B32(s)) || !bytes.Equal(k.Scalar().Bytes(), ref.B32(s)) {
+			t.Fatalf("private key built from scalar %x holds %x after the caller changed its scalar", s, k.Bytes())
+		}
+		if pub := secp256k1.NewIdentityPoint().ScalarBaseMult(k.Scalar()); !bytes.Equal(pub.UncompressedBytes(), k.PublicKey().Bytes()) {
+			t.Fatalf("key's private scalar %x no longer maps to its public key", k.Bytes())
+		}
+		ls.Set(keep)
 		k2, err := secec.NewPrivateKey(ref.B32(s))
 		if err != nil || !bytes.Equal(k2.PublicKey().Bytes(), want.Uncompressed()) {
 			t.Fatalf("NewPrivateKey(%x): wrong public key", s)
